@@ -28,6 +28,8 @@ ASSUMPTIONS = [
     'pool UTxOs have pairwise different transaction inputs (UTxO equality = identity); amounts of pool UTxOs are non-negative',
     'dict keys are unique (Python dict); typeguard / constructor validation outside the model (well-typed operands only)',
     'an injected random_generator yields Python ints; the built-in source is modelled as outcome = r mod len for arbitrary r',
+    'domain of the theorems and of the oracle: non-negative amounts in pool and request, fee >= 0, a stated limit is positive '
+    '(max_input_count = 0 is read as "no limit" by the code); cases outside are generated only to validate the model',
 ]
 
 ADA = 1000000
@@ -125,7 +127,7 @@ def small_requests(rng, pool, fee):
     base = max(coin - fee, 0)
     return [(1 * ADA, []), (base, []), (base + 1, []), (ADA, [(0, max(a, 1))]), (ADA, [(0, a + 1)]),
             (base // 2, [(1, 1)]), (2 * ADA, [(0, 1), (1, 1)]), (0, [(1, b + 1)]), (0, []),
-            (max(base - 900000, 0), [(0, a)] if a else [])]
+            (max(base - 900000, 0), [(0, a)] if a else []), (1, [(0, 1), (1, 1)])]
 
 
 def coverable(pool, coin, toks):
@@ -166,7 +168,7 @@ def large_case(rng):
     fee = rng.random() < 0.5
     coin, tok = totals(pool)
     base = max(coin - (FEES[ci] if fee else 0), 0)
-    rcoin = rng.choice([0, ADA, 2 * ADA, base // 5, base // 3, base // 2, base, base + 1, max(base - ADA, 0), rng.randint(0, base + 1)])
+    rcoin = rng.choice([0, 1, 2, 100, ADA, 2 * ADA, base // 5, base // 3, base // 2, base, base + 1, max(base - ADA, 0), rng.randint(0, base + 1)])
     rt = []
     for ai in rng.sample(range(4), rng.randint(0, 4)):
         t = tok.get(ASSETS[ai], 0)
@@ -174,7 +176,23 @@ def large_case(rng):
             continue
         rt.append((ai, rng.choice([1, max(t // 3, 1), max(t // 2, 1), max(t, 1), t + 1, rng.randint(1, t + 1)])))
     alg = rng.choice(['lf', 'ri', 'ri', 'rb'])
-    return dict(alg=alg, pool=pool, outs=split_outs(rng, rcoin, rt), lim=rng.choice([None, None, None, 1, 2, 3, 4, 4]), fee=fee,
+    lim = rng.choice([None, None, None, 1, 2, 3, 4, 4])
+    if rng.random() < 0.06:
+        # OUTSIDE the property's domain (the Coq oracle skips its result clauses there): negative quantities in the
+        # pool / non-positive limits; kept because they drive the model's KeyError / InvalidData / falsy-limit branches
+        if rng.random() < 0.7:
+            u = rng.choice(pool)
+            toks = _toks(u)
+            if toks and rng.random() < 0.8:
+                k = rng.randrange(len(toks))
+                t = tok.get(ASSETS[toks[k][0]], 0)
+                toks[k] = (toks[k][0], -rng.choice([1, 2, toks[k][1], max(t - toks[k][1], 1)]))
+                u[:] = mk_val(u[0], toks)
+            else:
+                u[0] = -rng.choice([1, ADA, u[0] + 1])
+        else:
+            lim = rng.choice([0, -1])
+    return dict(alg=alg, pool=pool, outs=split_outs(rng, rcoin, rt), lim=lim, fee=fee,
                 minchg=rng.random() < 0.5, stream=rand_stream(rng, alg, n), ctx=CTXS[ci])
 
 
@@ -182,16 +200,18 @@ def exhaustive_small(rng, max_pool, alpha, streams_per_cfg):
     """every ordered pool of <= max_pool UTxOs over alpha x every request variant x limits x fee x min-change;
     largest-first once, random-improve with streams_per_cfg sampled index streams"""
     cases = []
+    cnt = 0
     for k in range(max_pool + 1):
         for combo in itertools.product(alpha, repeat=k):
             pool = [mk_val(*u) for u in combo]
-            for req in range(10):
+            for req in range(11):
                 for lim in (None, 1, 2, 3, 4)[:k + 2]:
                     for fee in (False, True):
                         for minchg in (False, True):
                             cases.append(small_case(rng, pool, req, lim, fee, minchg, 'lf'))
                             for s in range(streams_per_cfg):
-                                cases.append(small_case(rng, pool, req, lim, fee, minchg, 'rb' if s % 3 == 1 else 'ri'))
+                                cnt += 1
+                                cases.append(small_case(rng, pool, req, lim, fee, minchg, 'rb' if cnt % 2 else 'ri'))
     return cases
 
 
@@ -323,59 +343,75 @@ def nontrivial(case, res):
     return (r[0] == 'ok' and len(r[1]) >= 1) or r[0] == 'err'
 
 
-def run(ctx, cases, ncorpus=0):
-    results = C.run_impl('coinsel_driver', {'cases': cases})
-    mism, ofail, errs = evaluate(cases, results)
-    if errs:
-        raise RuntimeError('cases file failed to compile: ' + errs[0])
-    return results, mism, ofail
+def in_domain(case):
+    def neg(v):
+        return v[0] < 0 or any(q < 0 for _, names in v[1] for _, q in names)
+    return not any(neg(v) for v in case['pool'] + case['outs']) and (case['lim'] is None or case['lim'] > 0)
+
+
+CHUNK = 30000
 
 
 def correspond(ctx, sizes=None):
-    n_small, n_large, exh = sizes or ctx.n((2600, 1200, (2, QUICK_ALPHA, 2)), (30000, 80000, (3, SMALL_ALPHA[:8], 3)))
+    n_small, n_large, exh = sizes or ctx.n((2200, 900, (2, QUICK_ALPHA[:3] + QUICK_ALPHA[4:], 1)), (20000, 40000, (3, QUICK_ALPHA, 2)))
     cases, ncorpus = gen_cases(ctx, n_small, n_large, exh)
-    results, mism, ofail = run(ctx, cases, ncorpus)
     kinds, algs, sizes_h, nsel = {}, {}, {}, {}
-    for c, r in zip(cases, results):
-        res = r.get('res', ['driver_error'])
-        k = 'ok' if res[0] == 'ok' else res[-1]
-        kinds[f'{c["alg"]}:{k}'] = kinds.get(f'{c["alg"]}:{k}', 0) + 1
-        algs[c['alg']] = algs.get(c['alg'], 0) + 1
-        sizes_h[len(c['pool'])] = sizes_h.get(len(c['pool']), 0) + 1
-        if res[0] == 'ok':
-            nsel[len(res[1])] = nsel.get(len(res[1]), 0) + 1
-    topups = sum(1 for c, r in zip(cases, results) if r.get('mc') is not None and r['res'][0] == 'ok'
-                 and totals([r['res'][2]])[0] >= r['mc'] and c['minchg'])
-    distinct = len({C.canon_hash(c) for c, r in zip(cases, results) if nontrivial(c, r)})
-
-    def pack(i):
-        return {'input': cases[i], 'impl': results[i], 'region': classify(cases[i], results[i])}
+    distinct, mism_p, ofail_p = set(), [], []
+    mc_calls = outside = 0
+    topups = {}
+    for k0 in range(0, len(cases), CHUNK):            # bounded memory: implementation + Coq evaluation per chunk
+        part = cases[k0:k0 + CHUNK]
+        results = C.run_impl('coinsel_driver', {'cases': part})
+        mism, ofail, errs = evaluate(part, results)
+        if errs:
+            raise RuntimeError('cases file failed to compile: ' + errs[0])
+        for c, r in zip(part, results):
+            res = r.get('res', ['driver_error'])
+            k = 'ok' if res[0] == 'ok' else res[-1]
+            kinds[f'{c["alg"]}:{k}'] = kinds.get(f'{c["alg"]}:{k}', 0) + 1
+            algs[c['alg']] = algs.get(c['alg'], 0) + 1
+            sizes_h[len(c['pool'])] = sizes_h.get(len(c['pool']), 0) + 1
+            if res[0] == 'ok':
+                nsel[len(res[1])] = nsel.get(len(res[1]), 0) + 1
+            if r.get('mc') is not None:
+                mc_calls += 1
+                if r.get('topup'):
+                    topups[k] = topups.get(k, 0) + 1
+            if not in_domain(c):
+                outside += 1
+            elif nontrivial(c, r):
+                distinct.add(C.canon_hash(c))
+        mism_p += [{'input': part[i], 'impl': results[i], 'region': classify(part[i], results[i])} for i in sorted(mism)[:20]]
+        ofail_p += [{'input': part[i], 'impl': results[i], 'region': classify(part[i], results[i])} for i in sorted(ofail)[:50]]
     return dict(
-        evaluations=len(cases), distinct_nontrivial=distinct,
+        evaluations=len(cases), distinct_nontrivial=len(distinct),
         rule='corpus (former defect witnesses) first; small scope: pools of 0..4 UTxOs over {1,2,5 ADA} x {no token, A:1, A:2, B:1}, '
-             '10 request shapes incl. exact-total and total+1 (ADA and token), spread over 1..3 outputs, limits None/1..4, '
-             'fee on/off over 4 protocol-parameter sets, min-change on/off, index streams (valid, all-zero, short, out-of-range '
-             'entries) for the injected generator and arbitrary outcome streams for the built-in random path'
-             + ('; exhaustive over ordered pools of <= %d UTxOs (alphabet of %d) x requests x limits x flags' % (exh[0], len(exh[1])) if exh else '')
-             + '; random larger pools (3..10 UTxOs, <= 4 assets). non-trivial = non-empty pool and (>= 1 input selected or an '
-             'exception); distinct by hash of the input',
+             '11 request shapes incl. exact-total and total+1 (ADA and token) and key ties, spread over 1..3 outputs, limits '
+             'None/1..4, fee on/off over 4 protocol-parameter sets, min-change on/off, index streams (valid, all-zero, short, '
+             'out-of-range / negative entries) for the injected generator and arbitrary outcome streams for the built-in random '
+             'path; exhaustive over ordered pools of <= %d UTxOs (alphabet of %d) x request shapes x limits x fee x min-change, '
+             'largest-first + %d sampled streams each; random larger pools (3..10 UTxOs, <= 4 assets). non-trivial = in the '
+             'property domain, non-empty pool and (>= 1 input selected or an exception); distinct by hash of the input. '
+             '%d cases lie OUTSIDE the domain on purpose (negative quantities / limit <= 0: correspondence + pool-unmodified only)'
+             % (exh[0], len(exh[1]), exh[2], outside),
         samples=[cases[ncorpus] if len(cases) > ncorpus else cases[0], cases[-1]],
-        corpus_cases=ncorpus, outcome_histogram=kinds, algorithm_histogram=algs, pool_size_histogram=sizes_h,
-        selected_count_histogram=nsel, min_change_calls=sum(1 for r in results if r.get('mc') is not None),
+        corpus_cases=ncorpus, outside_domain_cases=outside, outcome_histogram=kinds, algorithm_histogram=algs,
+        pool_size_histogram=sizes_h, selected_count_histogram=nsel, min_change_calls=mc_calls,
+        min_change_topups_by_outcome=topups,
         traces_validated_against_impl=len(cases),
         compared='selected pool positions in returned order (by object identity), raw change Value (coin + ordered dict of '
                  'dicts), exception kind; oracle (Coq) = distinct positions inside the pool, request(+fee) <= sum selected '
                  'component-wise, change == selected - requested, |selected| <= limit, pool snapshot and object identities '
                  'unchanged, errors are UTxOSelectionException kinds, largest-first Insufficient only if the pool cannot cover',
-        mismatches=[pack(i) for i in sorted(mism)[:20]],
-        oracle_fail=[pack(i) for i in sorted(ofail)[:50]],
+        mismatches=mism_p[:20],
+        oracle_fail=ofail_p[:50],
     )
 
 
 def search(ctx, mism):
     """Something no longer checks: look harder for an input on which the property itself fails on the implementation."""
     ctx.rng.seed(f'search-{ctx.seed}')
-    r = correspond(ctx, (9000, 4000, (2, SMALL_ALPHA[:6], 2)) if ctx.quick else (60000, 60000, (3, SMALL_ALPHA[:8], 2)))
+    r = correspond(ctx, (9000, 4000, (2, SMALL_ALPHA[:6], 2)) if ctx.quick else (40000, 40000, (3, SMALL_ALPHA[:6], 1)))
     if r['oracle_fail']:
         return min(r['oracle_fail'], key=lambda f: len(json.dumps(f)))
     return None
